@@ -296,7 +296,7 @@ fn make_atom(l: Srcloc, v: Vec<u8>) -> SExp {
         let want_name = v[1..].to_vec();
         for p in prims() {
             if want_name == p.0 {
-                return p.1;
+                return p.1.with_loc(l);
             }
         }
 
